@@ -133,7 +133,12 @@ inline MessageRef HostileMessage(uint64_t gseed, int tmpl)
       break;
       case HT_REORDER:
          m = GetMessageFromPool(PR_COMMAND_REORDERDATA);
-         {const int n = 1 + (int) r.below(3); for (int i=0; i<n; i++) (void) m()->AddString((HPath(r) + (r.oneIn(2) ? "/*" : "")).c_str(), r.oneIn(3) ? PR_NAME_REMOVE_FROM_INDEX : (r.oneIn(2) ? "I0" : PickStr(r, kHStrings)));}
+         {const int n = 1 + (int) r.below(3); for (int i=0; i<n; i++)
+            {
+               const std::string hp = HPath(r); const std::string self = hp.substr(hp.rfind('/')+1);   // (sometimes "move it before itself", also for a wildcard that matches the named sibling itself, also under a parent that keeps no index)
+               const bool star = r.oneIn(2);
+               (void) m()->AddString((star ? (hp.substr(0, hp.size()-self.size()) + "*") : hp).c_str(), r.oneIn(4) ? self.c_str() : (r.oneIn(3) ? PR_NAME_REMOVE_FROM_INDEX : (r.oneIn(2) ? "I0" : PickStr(r, kHStrings))));
+            }}
       break;
       case HT_GETDATATREES:
          m = GetMessageFromPool(PR_COMMAND_GETDATATREES);
